@@ -18,12 +18,38 @@
 //! * C15 `reset-after-bind-accept`: an endpoint that answered Bind(id) with Finish(id) sends no
 //!   Reset(id) unless another stream frame with that id has reached or left it in between.
 //!
+//! * C03 `write-credit-units`: with the sink open, an accepted write with a payload (any accepted
+//!   frame-level write) puts exactly one Push on the wire in its step, a write left pending none.
+//! * C10 `ack-owed` (PROTOCOL.md: an Acknowledge MUST be sent once rwnd frames have been processed since
+//!   the last one): at the end of a completion phase that ran to quiescence, for every stream known to be
+//!   established and held at an endpoint with no Reset either way: Push frames delivered since the
+//!   handshake minus frames acknowledged < rwnd.
+//!
+//! Stimuli beyond the plain application calls: `wpush h <bytes>` = the public frame-level writer
+//! `MuxStream::poll_write_push` (zero-length Push frames, as a foreign / older peer sends);
+//! `deliver E closeerr` = the peer's Close followed by an error from the receive half (connection reset
+//! after Close), `deliver E err2` = the receive half reports its failure twice (a second fault while
+//! the wind-down is running). Byte strings may be written `<hex>z:<n>:<k>` (n pattern bytes k, k+1, …
+//! mod 251 after the hex prefix): the huge-write family (one write of 1–3.5 MiB into a window of 2–4
+//! frames) keeps its lines, traces and replays short that way.
+//!
 //! `--focus Cxx` biases generation and selects which monitor failures / disagreements this run
 //! reports. Non-trivial case: at least one stream or datagram or bind exchange completed end to end
 //! (a frame sent by one endpoint was processed by the other).
 
-use pvh::muxsim::{Sim, SimOpts};
-use pvh::{Args, Driver, FailKind, Report, Rng, Tier, catch, fnv, hexd, json, shrink_list, unhex};
+use pvh::muxsim::{Sim, SimOpts, hexz, unhexz};
+use pvh::{Args, Driver, FailKind, Report, Rng, Tier, catch, fnv, hexd, json, shrink_list};
+
+/// Byte strings in stimulus lines and answers: hex, `-`, or the compact form of a long pattern run
+/// (`pvh::muxsim::hexz`).
+fn unhex(s: &str) -> Option<Vec<u8>> {
+    unhexz(s)
+}
+
+/// For messages: a long byte string is shown by its length, head and tail.
+fn abbr(b: &[u8]) -> String {
+    if b.len() <= 48 { hexd(b) } else { format!("{}…{} ({} bytes)", pvh::hex(&b[..16]), pvh::hex(&b[b.len() - 8..]), b.len()) }
+}
 use std::collections::{HashMap, VecDeque};
 
 #[derive(Clone, Debug)]
@@ -42,7 +68,11 @@ struct HInfo {
     port: Option<u64>, // pairing key (unique per open)
     written: Vec<u8>,
     read: Vec<u8>,
+    /// leading bytes of `read` already found equal to `written`
+    verified: usize,
     pending_write: Option<Vec<u8>>,
+    /// the call that is pending: `write` or `wpush`
+    pending_op: &'static str,
 }
 
 #[derive(Default)]
@@ -121,6 +151,13 @@ struct World {
     double_reply: bool,
     /// how often the premises of the wire-level / end-of-case monitors held (reported in the distribution)
     mon: std::collections::BTreeMap<&'static str, u64>,
+    /// a payload of the case is written as a `z` token (a write of megabytes): reads of the completion
+    /// phase are large, the case is not projected onto the link model
+    huge: bool,
+    /// the frame-level writer was used (`wpush`)
+    raw_push: bool,
+    /// the completion phase ended because nothing moved any more (not because its rounds ran out)
+    quiesced: bool,
 }
 
 const NAMES: [&str; 2] = ["A", "B"];
@@ -150,9 +187,22 @@ fn parse_frame(hexs: &str) -> Option<(u8, u32, Vec<u8>)> {
     Some((b[0] & 0x0f, u32::from_be_bytes([b[1], b[2], b[3], b[4]]), b[5..].to_vec()))
 }
 
+/// Opcode and flow id of a frame given as a (possibly compact) token, without expanding the payload.
+fn parse_head(hexs: &str) -> Option<(u8, u32)> {
+    let head = hexs.split("z:").next().unwrap_or("");
+    if head.len() < 10 { return None; }
+    let op = u8::from_str_radix(head.get(0..2)?, 16).ok()? & 0x0f;
+    Some((op, u32::from_str_radix(head.get(2..10)?, 16).ok()?))
+}
+
+fn parse_op(hexs: &str) -> Option<u8> {
+    parse_head(hexs).map(|x| x.0)
+}
+
 impl World {
     fn new(opts: [SimOpts; 2]) -> Self {
-        let sims = [Sim::new("A", opts[0]), Sim::new("B", opts[1])];
+        let mut sims = [Sim::new("A", opts[0]), Sim::new("B", opts[1])];
+        for sim in &mut sims { sim.compact = true; }
         let mut w = Self {
             sims,
             opts,
@@ -198,6 +248,9 @@ impl World {
             replied: std::collections::HashSet::new(),
             double_reply: false,
             mon: std::collections::BTreeMap::new(),
+            huge: false,
+            raw_push: false,
+            quiesced: false,
         };
         for v in &mut w.view {
             v.mux_alive = true;
@@ -220,6 +273,8 @@ impl World {
     /// Apply one stimulus to endpoint `e`; returns the implementation's answer.
     fn stim(&mut self, e: usize, toks: &[String]) -> String {
         let t: Vec<&str> = toks.iter().map(String::as_str).collect();
+        if t.iter().any(|x| x.contains("z:")) { self.huge = true; }
+        if t[0] == "wpush" { self.raw_push = true; }
         let mut line = format!("{} {}", t[0], NAMES[e]);
         for x in &t[1..] {
             line.push(' ');
@@ -332,9 +387,28 @@ impl World {
                     self.est[e].insert(id, h);
                 }
             }
-            ("write" | "writev", r) => {
+            ("write" | "writev" | "wpush", r) => {
                 let h: usize = t[1].parse().unwrap();
                 let data: Vec<u8> = t[2..].iter().flat_map(|p| unhex(p).unwrap()).collect();
+                // C03, "one write consumes exactly one unit of credit": with the sink open the task hands
+                // every queued frame to the transport before it is quiescent again, so the Push frames of
+                // this call are the Push frames among the events of this step — exactly one for a call
+                // that was accepted with a payload (any accepted `wpush`), none for a call left pending
+                if both_up && !lagging && self.view[e].mux_alive {
+                    let pushes = evs.split("; ").filter(|ev| ev.strip_prefix("wire ").and_then(parse_op) == Some(4)).count();
+                    let want = match r {
+                        ["wrote", n] if t[0] == "wpush" || *n != "0" => Some(1),
+                        ["wrote", _] | ["pending"] => Some(0),
+                        _ => None,
+                    };
+                    if let Some(want) = want {
+                        *self.mon.entry("write-credit-units/judged").or_insert(0) += 1;
+                        if pushes != want {
+                            let msg = format!("`{} {} {h} ({} bytes)` on {} answered `{res}` and put {pushes} Push frame(s) on the wire: one write costs exactly one unit of the peer's window, a write that is left pending none", t[0], NAMES[e], data.len(), NAMES[e]);
+                            self.fail("C03", "write-credit-units", msg);
+                        }
+                    }
+                }
                 match r {
                     ["wrote", n] => {
                         let n: usize = n.parse().unwrap();
@@ -344,7 +418,7 @@ impl World {
                         if n != data.len() {
                             self.fail("C02", "short-write", format!("write of {} bytes reported {n}", data.len()));
                         }
-                        if n > 0 { self.acc_push[e] += 1; }
+                        if n > 0 || t[0] == "wpush" { self.acc_push[e] += 1; }
                         self.view[e].handles[h].written.extend_from_slice(&data[..n.min(data.len())]);
                         self.view[e].handles[h].pending_write = None;
                         if self.view[e].handles[h].shutdown && !data.is_empty() {
@@ -356,6 +430,7 @@ impl World {
                             self.fail("C05", "writer-parked-after-peer-abort", format!("a write on {}#{h} is left pending although the peer's Reset of that stream had been processed", NAMES[e]));
                         }
                         self.view[e].handles[h].pending_write = Some(data);
+                        self.view[e].handles[h].pending_op = if t[0] == "wpush" { "wpush" } else { "write" };
                     }
                     ["brokenpipe"] => {
                         self.view[e].handles[h].broken = true;
@@ -507,7 +582,7 @@ impl World {
                 self.inc[e].clear();
             }
             ("deliver", _) => {
-                if matches!(t[1], "err" | "eof" | "close") {
+                if matches!(t[1], "err" | "eof" | "close" | "closeerr" | "err2") {
                     self.view[e].terminated_by = Some(t[1].into());
                     self.faulted = true;
                     self.ep_faulted[e] = true;
@@ -789,9 +864,14 @@ impl World {
         let Some((pe, ph)) = self.peer_handle(e, h) else { return };
         let read = &self.view[e].handles[h].read;
         let written = &self.view[pe].handles[ph].written;
-        if read.len() > written.len() || read[..] != written[..read.len()] {
-            let msg = format!("bytes read on {}#{h} are not a prefix of the bytes written on {}#{ph}: read {} written {}", NAMES[e], NAMES[pe], hexd(read), hexd(written));
+        let from = self.view[e].handles[h].verified.min(read.len());
+        if read.len() > written.len() || read[from..] != written[from..read.len()] {
+            let at = (from..read.len()).find(|&i| written.get(i) != Some(&read[i])).unwrap_or(read.len());
+            let msg = format!("bytes read on {}#{h} are not a prefix of the bytes accepted by writes on {}#{ph} (first difference at offset {at}): read {} written {}", NAMES[e], NAMES[pe], abbr(read), abbr(written));
             self.fail("C02", "not-prefix", msg);
+        } else {
+            let n = read.len();
+            self.view[e].handles[h].verified = n;
         }
     }
 
@@ -972,6 +1052,17 @@ fn run_case(r: &mut Rng, focus: Focus, len: usize) -> World {
             match r.below(10) {
                 0..=3 => {
                     let hi = &w.view[e].handles[h];
+                    if let Some(d) = hi.pending_write.clone().filter(|_| hi.pending_op == "wpush") {
+                        w.stim(e, &[s("wpush"), s(h), hexz(&d)]);
+                        continue;
+                    }
+                    // the frame-level writer (`poll_write_push`), mostly with an empty payload: what an older
+                    // or a foreign peer puts on the wire for an empty write
+                    if matches!(focus, Focus::C02 | Focus::C03 | Focus::C04 | Focus::C05 | Focus::C10) && hi.pending_write.is_none() && r.chance(1, 8) {
+                        let d = if r.chance(3, 4) { vec![] } else { gen_payload(r, tags[e].wrapping_add(h as u8 * 37), hi.written.len()) };
+                        w.stim(e, &[s("wpush"), s(h), hexz(&d)]);
+                        continue;
+                    }
                     let data = hi.pending_write.clone().unwrap_or_else(|| gen_payload(r, tags[e].wrapping_add(h as u8 * 37), hi.written.len()));
                     if r.chance(1, 6) && data.len() >= 2 && hi.pending_write.is_none() {
                         let cut = r.range(0, data.len() as u64) as usize;
@@ -994,6 +1085,10 @@ fn run_case(r: &mut Rng, focus: Focus, len: usize) -> World {
         // faults / injections
         if k < wf {
             match r.below(8) {
+                // a second fault while the wind-down is already running: the peer's Close followed by a
+                // reset of the connection, a receive half that reports its failure twice
+                0 if matches!(focus, Focus::C08) && r.chance(1, 2) => { w.stim(e, &[s("deliver"), s("closeerr")]); }
+                1 if matches!(focus, Focus::C08) && r.chance(1, 2) => { w.stim(e, &[s("deliver"), s("err2")]); }
                 0 => { w.stim(e, &[s("deliver"), s("close")]); }
                 1 => { w.stim(e, &[s("deliver"), s("err")]); }
                 2 => { w.stim(e, &[s("deliver"), s("eof")]); }
@@ -1085,6 +1180,124 @@ fn run_case(r: &mut Rng, focus: Focus, len: usize) -> World {
     w
 }
 
+/// One write of more than 1 MiB (up to 3.5 MiB) on a stream whose reader grants a window of 2–4
+/// frames, possibly after small writes that have used part of the window, with deliveries, large reads
+/// and retries of a pending write in random order; then a clean shutdown and the completion phase.
+/// (C02: "plain and vectored writes of any size … window-exceeding bursts".) The payload is a pattern
+/// run, written as a `z` token in every line.
+fn huge_write_case(r: &mut Rng, focus: Focus) -> World {
+    let mut opts = [gen_opts(r, focus), gen_opts(r, focus)];
+    let we = r.below(2) as usize; // the writing endpoint
+    let re = 1 - we;
+    opts[re].rwnd = r.range(2, 4) as u32;
+    let mut w = World::new(opts);
+    for e in 0..2 {
+        let mut t = vec![s("rng")];
+        t.extend((0..8).map(|_| s(r.range(1, 0xffff_ffff))));
+        w.stim(e, &t);
+        w.view[e].rng_left = 8;
+    }
+    // either side opens the stream
+    let oe = r.below(2) as usize;
+    let req = w.next_req; w.next_req += 1;
+    w.stim(oe, &[s("open"), s(req), hexd(&r.bytes(3)), s(1000 + req)]);
+    w.deliver_next(1 - oe);
+    w.stim(1 - oe, &[s("accept")]);
+    w.deliver_next(oe);
+    if w.view[0].handles.is_empty() || w.view[1].handles.is_empty() {
+        completion_phase(&mut w, r, focus);
+        return w;
+    }
+    let tag = r.below(251) as u8;
+    // small writes first: part of the window is in use when the long write comes
+    for _ in 0..r.below(3) {
+        let d = pvh::muxsim::pattern(r.range(1, 200) as usize, ((usize::from(tag) + w.view[we].handles[0].written.len()) % 251) as u8);
+        w.stim(we, &[s("write"), s(0), hexz(&d)]);
+    }
+    let longs = 1 + r.below(2);
+    for _ in 0..longs {
+        let n = r.range((1 << 20) + 1, 7 << 19) as usize;
+        let d = pvh::muxsim::pattern(n, ((usize::from(tag) + w.view[we].handles[0].written.len()) % 251) as u8);
+        w.stim(we, &[s("write"), s(0), hexz(&d)]);
+        for _ in 0..r.range(2, 10) {
+            match r.below(5) {
+                0 | 1 => { w.deliver_next(re); }
+                2 => { w.stim(re, &[s("read"), s(0), s(*r.pick(&[65_536u64, 1 << 20, 1 << 22]))]); }
+                3 => { w.deliver_next(we); }
+                _ => {
+                    if let Some(d) = w.view[we].handles[0].pending_write.clone() {
+                        w.stim(we, &[s("write"), s(0), hexz(&d)]);
+                    }
+                }
+            }
+        }
+        // the writer does not start another write while one is pending
+        for _ in 0..6 {
+            let Some(d) = w.view[we].handles[0].pending_write.clone() else { break };
+            while w.deliver_next(re) {}
+            for _ in 0..8 {
+                if !w.stim(re, &[s("read"), s(0), s(1u64 << 22)]).starts_with("data") { break; }
+            }
+            while w.deliver_next(we) {}
+            w.stim(we, &[s("write"), s(0), hexz(&d)]);
+        }
+    }
+    if w.view[we].handles[0].pending_write.is_none() {
+        w.stim(we, &[s("shutdown"), s(0)]);
+    }
+    completion_phase(&mut w, r, focus);
+    w
+}
+
+/// One stream between two conforming endpoints on which the frame-level writer is used as well as
+/// `poll_write`: zero-length Push frames (what a foreign or an older peer sends for an empty write) mixed
+/// with data frames, deliveries and reads in random order, both directions; then the completion phase
+/// (run to quiescence, so that the liveness and acknowledgement monitors can judge).
+fn frame_level_case(r: &mut Rng, focus: Focus) -> World {
+    let mut w = World::new([gen_opts(r, focus), gen_opts(r, focus)]);
+    for e in 0..2 {
+        let mut t = vec![s("rng")];
+        t.extend((0..8).map(|_| s(r.range(1, 0xffff_ffff))));
+        w.stim(e, &t);
+        w.view[e].rng_left = 8;
+    }
+    let oe = r.below(2) as usize;
+    let req = w.next_req; w.next_req += 1;
+    w.stim(oe, &[s("open"), s(req), hexd(&r.bytes(2)), s(1000 + req)]);
+    w.deliver_next(1 - oe);
+    w.stim(1 - oe, &[s("accept")]);
+    w.deliver_next(oe);
+    if !w.view[0].handles.is_empty() && !w.view[1].handles.is_empty() {
+        let tag = r.next() as u8;
+        for _ in 0..r.range(4, 28) {
+            let e = r.below(2) as usize;
+            let hi = &w.view[e].handles[0];
+            match r.below(7) {
+                0 | 1 => {
+                    if let Some(d) = hi.pending_write.clone() {
+                        w.stim(e, &[s(hi.pending_op), s(0), hexz(&d)]);
+                    } else {
+                        let d = if r.chance(4, 5) { vec![] } else { gen_payload(r, tag.wrapping_add(e as u8 * 91), hi.written.len()) };
+                        w.stim(e, &[s("wpush"), s(0), hexz(&d)]);
+                    }
+                }
+                2 => {
+                    let (op, d) = match hi.pending_write.clone() {
+                        Some(d) => (hi.pending_op, d),
+                        None => ("write", gen_payload(r, tag.wrapping_add(e as u8 * 91), hi.written.len())),
+                    };
+                    w.stim(e, &[s(op), s(0), hexz(&d)]);
+                }
+                3 | 4 => { w.deliver_next(e); }
+                _ => { w.stim(e, &[s("read"), s(0), s(*r.pick(&[1u64, 8, 4096]))]); }
+            }
+        }
+    }
+    fair_completion(&mut w, 40);
+    final_checks(&mut w);
+    w
+}
+
 /// A local drop under back-pressure: the sink stops, several messages are queued, the sink accepts a
 /// few of them, the Multiplexor is dropped, the sink opens again. Everything queued before the drop
 /// has to reach the wire, in order, before the close.
@@ -1133,6 +1346,9 @@ fn completion_phase(w: &mut World, r: &mut Rng, focus: Focus) {
 }
 
 fn fair_completion(w: &mut World, rounds: usize) {
+    // (a case with writes of megabytes settles within a few rounds or — writer resending for ever — never)
+    let rounds = if w.huge { rounds.min(6) } else { rounds };
+    w.quiesced = false;
     for e in 0..2 {
         if w.sink_blocked[e] {
             w.sink_blocked[e] = false;
@@ -1170,12 +1386,14 @@ fn fair_completion(w: &mut World, rounds: usize) {
             for h in 0..w.view[e].handles.len() {
                 if !w.view[e].handles[h].alive { continue; }
                 if let Some(d) = w.view[e].handles[h].pending_write.clone() {
-                    let out = w.stim(e, &[s("write"), s(h), hexd(&d)]);
+                    let out = w.stim(e, &[s(w.view[e].handles[h].pending_op), s(h), hexz(&d)]);
                     if !out.starts_with("pending") { progressed = true; }
                 }
                 if !w.view[e].handles[h].eof {
+                    // (a case with a write of megabytes is read in pieces of 4 MiB)
+                    let piece = if w.huge { 1u64 << 22 } else { 4096 };
                     for _ in 0..64 {
-                        let out = w.stim(e, &[s("read"), s(h), s(4096)]);
+                        let out = w.stim(e, &[s("read"), s(h), s(piece)]);
                         if out.starts_with("data") { progressed = true; } else { break; }
                     }
                 }
@@ -1183,6 +1401,7 @@ fn fair_completion(w: &mut World, rounds: usize) {
         }
         let _ = before;
         if !progressed && w.wire[0].is_empty() && w.wire[1].is_empty() {
+            w.quiesced = true;
             break;
         }
     }
@@ -1226,12 +1445,56 @@ fn final_checks(w: &mut World) {
             }
         }
     }
+    // C10 ("it answers as PROTOCOL.md requires"; PROTOCOL.md: "One end MUST send an Acknowledge frame when
+    // it processes rwnd frames from the other end after sending the last Acknowledge frame"), judged on
+    // the wire for every stream that is known to be established at e and held by its application (the
+    // in-use shadow `est`; it is dropped whenever the sink lags), on which no Reset has passed either
+    // way, at the end of a completion phase that ended because nothing moved any more: the application
+    // has then read everything (its last read is pending), so every Push that was delivered to e on that
+    // flow since the handshake — whoever sent it, whatever its length — has been processed, and all but
+    // fewer than rwnd of them must have been acknowledged.
+    if w.quiesced && !w.reused {
+        for e in 0..2 {
+            if w.view[e].exited || w.view[e].terminated_by.is_some() || !w.view[e].mux_alive || w.sink_blocked[e] || !w.wire[1 - e].is_empty() { continue; }
+            let mut flows: Vec<(u32, usize)> = w.est[e].iter().map(|(id, h)| (*id, *h)).collect();
+            flows.sort_unstable();
+            for (id, h) in flows {
+                let Some(hi) = w.view[e].handles.get(h) else { continue };
+                if !hi.alive || hi.eof || w.rst_in[e].contains(&id) || w.rst_out[e].contains(&id) { continue; }
+                let me = format!("deliver {} bin ", NAMES[e]);
+                let own = format!(" {} ", NAMES[e]);
+                // the handshake: the Connect that reached e, or the Acknowledge that completed e's own request
+                let est_idx = w.steps.iter().rposition(|st| {
+                    st.line.strip_prefix(&me).and_then(parse_head).is_some_and(|(op, fid)| fid == id && (op == 0 || (op == 1 && st.out.contains(&format!(" ok {h}")))))
+                });
+                let Some(est_idx) = est_idx else { continue };
+                let mut pushes = 0u64;
+                let mut acked = 0u64;
+                for st in &w.steps[est_idx + 1..] {
+                    if st.line.strip_prefix(&me).and_then(parse_head) == Some((4, id)) { pushes += 1; }
+                    if !st.line.contains(&own) { continue; }
+                    for ev in st.out.split_once(" | ").map_or("", |x| x.1).split("; ") {
+                        if let Some((1, fid, p)) = ev.strip_prefix("wire ").filter(|m| parse_head(m) == Some((1, id))).and_then(parse_frame) {
+                            if fid == id && p.len() >= 4 { acked += u64::from(u32::from_be_bytes([p[0], p[1], p[2], p[3]])); }
+                        }
+                    }
+                }
+                *w.mon.entry("ack-owed/judged").or_insert(0) += 1;
+                if pushes >= acked + u64::from(w.opts[e].rwnd) {
+                    let msg = format!("endpoint {} has processed {pushes} Push frames on flow {id:08x} since the handshake (its application holds stream #{h} and has read everything: the last read is pending, nothing is in flight) but has acknowledged only {acked}; its window is {}: PROTOCOL.md requires an Acknowledge once rwnd frames have been processed since the last one — the sender's window is used up for ever", NAMES[e], w.opts[e].rwnd);
+                    w.fail("C10", "ack-owed", msg);
+                }
+            }
+        }
+    }
     for e in 0..2 {
         let both_up = !w.view[0].exited && !w.view[1].exited && w.view[0].terminated_by.is_none() && w.view[1].terminated_by.is_none();
         for h in 0..w.view[e].handles.len() {
             let hi = w.view[e].handles[h].clone();
             if !hi.alive { continue; }
-            if hi.pending_write.is_some() && both_up && !w.injected {
+            // (where the completion phase is cut short — cases with writes of megabytes — a writer is judged
+            // only if the phase ended because nothing moved any more)
+            if hi.pending_write.is_some() && both_up && !w.injected && (w.quiesced || !w.huge) {
                 if let Some((pe, ph)) = w.peer_handle(e, h) {
                     if w.view[pe].handles[ph].alive && !w.view[pe].handles[ph].eof {
                         let msg = format!("writer {}#{h} is still blocked at quiescence although its peer {}#{ph} read everything available and nothing is in flight (options A={:?} B={:?})", NAMES[e], NAMES[pe], w.opts[0], w.opts[1]);
@@ -1385,7 +1648,7 @@ struct LinkReq {
 /// terminating event). Cases with injected frames or a reused flow id are not projected.
 fn link_projections(w: &World) -> Vec<(String, Vec<LinkReq>)> {
     let mut out = vec![];
-    if w.injected || w.reused || w.cancelled {
+    if w.injected || w.reused || w.cancelled || w.huge {
         return out;
     }
     // A receive loop parked on a full accept / bind queue leaves delivered messages unprocessed: the
@@ -1441,12 +1704,14 @@ fn link_projections(w: &World) -> Vec<(String, Vec<LinkReq>)> {
                 if evs.split("; ").any(|ev| ev.starts_with("exit ")) { break; }
                 match t[0] {
                     "dropmux" => break,
-                    "deliver" if matches!(t.get(2), Some(&"err" | &"eof" | &"close")) => break,
+                    "deliver" if matches!(t.get(2), Some(&"err" | &"eof" | &"close" | &"closeerr" | &"err2")) => break,
                     "write" | "writev" if e == we && t.get(2).and_then(|x| x.parse::<usize>().ok()) == Some(wh) => {
                         let data: Vec<u8> = t[3..].iter().flat_map(|p| unhex(p).unwrap_or_default()).collect();
                         let d = if data.is_empty() { "-".to_string() } else { hexd(&data) };
                         reqs.push(LinkReq { req: format!("write {d}"), expect: Some(res.to_string()), step: i });
                     }
+                    // the frame-level writer is not an action of the link model: this direction is compared up to here
+                    "wpush" if e == we && t.get(2).and_then(|x| x.parse::<usize>().ok()) == Some(wh) => break,
                     "shutdown" if e == we && t.get(2).and_then(|x| x.parse::<usize>().ok()) == Some(wh) => {
                         writer_shutdown = true;
                         reqs.push(LinkReq { req: "shutdown".into(), expect: None, step: i });
@@ -1517,7 +1782,7 @@ fn attribute(line: &str) -> Vec<&'static str> {
     match t[0] {
         "open" | "accept" => vec!["C07"],
         "cancelopen" => vec!["C07", "C10"],
-        "write" | "writev" => vec!["C02", "C03", "C04", "C05"],
+        "write" | "writev" | "wpush" => vec!["C02", "C03", "C04", "C05"],
         "read" => vec!["C02", "C03", "C04", "C05"],
         "wstate" => vec!["C04"],
         "shutdown" => vec!["C05"],
@@ -1605,9 +1870,15 @@ fn main() {
             rep.count(&format!("op/{op}"));
             let res = st.out.split(' ').next().unwrap_or("?");
             rep.count(&format!("res/{op}/{res}"));
+            if op == "deliver" {
+                if let Some(k) = st.line.split(' ').nth(2).filter(|k| matches!(*k, "err" | "eof" | "close" | "closeerr" | "err2")) {
+                    rep.count(&format!("fault/{k}"));
+                }
+            }
         }
         for (k, n) in &w.mon { rep.count_n(&format!("monitor/{k}"), *n); }
         if w.injected { rep.count("case/with-injected-frames"); }
+        if w.raw_push { rep.count("case/with-frame-level-writes"); }
         if w.faulted { rep.count("case/with-transport-fault"); }
         if rep.samples.len() < 3 {
             rep.sample(json!({"lines": lines.iter().take(40).collect::<Vec<_>>(), "answers": w.steps.iter().take(38).map(|s| s.out.clone()).collect::<Vec<_>>()}));
@@ -1619,7 +1890,12 @@ fn main() {
         // (`eos-not-equal` is `eof-before-data` under its C02 name: reported once under C06)
         for f in w.fails.iter().filter(|f| mine(&f.0) && !(focus == Focus::C06 && f.1.starts_with("eos-not-equal"))) {
             let key = f.1.clone();
+            if rep.failures.iter().any(|g| g["key"] == format!("{}:{}", focus.name(), key)) { continue; }
+            // (replaying a case with writes of megabytes is slow: a bounded number of shrinking attempts)
+            let mut budget = if w.huge { 30usize } else { usize::MAX };
             let small = shrink_list(lines[2..].to_vec(), |cand| {
+                if budget == 0 { return false; }
+                budget -= 1;
                 let mut l = lines[..2].to_vec();
                 l.extend_from_slice(cand);
                 catch(|| replay_lines(&l).is_some_and(|w2| w2.fails.iter().any(|g| mine(&g.0) && g.1 == key))).unwrap_or(false)
@@ -1637,7 +1913,10 @@ fn main() {
                 if attr.contains(&focus.name()) || std::env::var("PVH_ALL_DIFFS").is_ok() {
                     // shrink while the first difference stays on the same kind of stimulus
                     let kind = w.steps[i].line.split(' ').next().unwrap_or("").to_string();
+                    let mut budget = if w.huge { 0usize } else { usize::MAX };
                     let small = shrink_list(lines[2..].to_vec(), |cand| {
+                        if budget == 0 { return false; }
+                        budget -= 1;
                         let mut l = lines[..2].to_vec();
                         l.extend_from_slice(cand);
                         catch(|| {
@@ -1665,6 +1944,31 @@ fn main() {
         let lines: Vec<String> = text.lines().map(str::trim).filter(|l| !l.is_empty() && !l.starts_with('#')).map(str::to_string).collect();
         if let Ok(Some(w)) = catch(|| replay_lines(&lines)) {
             handle_world(w, &format!("corpus:{name}"), &mut rep, &mut drv);
+        }
+    }
+    // a handful of cases with one write of more than 1 MiB (own generator stream: the random cases
+    // below do not depend on how many there are)
+    if matches!(focus, Focus::C02 | Focus::C03 | Focus::C04) {
+        let n_huge = match args.tier { Tier::Quick => 4, Tier::Thorough => 24 };
+        let base = Rng::new(args.seed ^ fnv(focus.name().as_bytes()) ^ 0x6875_6765);
+        for k in 0..n_huge {
+            let mut r = base.fork(k);
+            match catch(|| huge_write_case(&mut r, focus)) {
+                Ok(w) => handle_world(w, "huge-write", &mut rep, &mut drv),
+                Err(p) => rep.fail(FailKind::Impl, "harness-panic", &format!("panic outside a stimulus: {p}"), json!({})),
+            }
+        }
+    }
+    // streams on which the frame-level writer sends zero-length Push frames
+    if matches!(focus, Focus::C03 | Focus::C04 | Focus::C10) {
+        let n = match args.tier { Tier::Quick => 60, Tier::Thorough => 1500 };
+        let base = Rng::new(args.seed ^ fnv(focus.name().as_bytes()) ^ 0x7770_7573_68);
+        for k in 0..n {
+            let mut r = base.fork(k);
+            match catch(|| frame_level_case(&mut r, focus)) {
+                Ok(w) => handle_world(w, "frame-level-writes", &mut rep, &mut drv),
+                Err(p) => rep.fail(FailKind::Impl, "harness-panic", &format!("panic outside a stimulus: {p}"), json!({})),
+            }
         }
     }
     for _ in 0..cases {
